@@ -735,6 +735,15 @@ func BackSlice(v ssa.Value, visit func(ssa.Value) bool) {
 			if x.Call.IsInvoke() {
 				walk(x.Call.Value)
 			}
+			// a helper declared transparent (a block of an anchored function moved into a function that
+			// returns values used afterwards): the slice continues into what it returns
+			if callee := x.Call.StaticCallee(); callee != nil && transparentFns[callee] {
+				for _, r := range Returns(callee) {
+					for _, res := range r.Results {
+						walk(res)
+					}
+				}
+			}
 		case *ssa.MakeClosure:
 			for _, b := range x.Bindings {
 				walk(b)
@@ -771,6 +780,27 @@ func BackSlice(v ssa.Value, visit func(ssa.Value) bool) {
 // one `go f(args)` statement) and the argument each stands for. BackSlice continues from such a parameter into
 // the argument, as it does from a closure's free variable into its binding.
 var paramBindings = map[*ssa.Parameter]ssa.Value{}
+
+var transparentFns = map[*ssa.Function]bool{}
+
+// MarkTransparent makes BackSlice continue from a call of fn into the values fn returns.
+func MarkTransparent(fn *ssa.Function) { transparentFns[fn] = true }
+
+// ResolveParam follows parameter bindings: the argument a bound parameter stands for (v itself otherwise).
+func ResolveParam(v ssa.Value) ssa.Value {
+	for i := 0; i < 4; i++ {
+		prm, ok := Strip(v).(*ssa.Parameter)
+		if !ok {
+			return v
+		}
+		b := paramBindings[prm]
+		if b == nil {
+			return v
+		}
+		v = b
+	}
+	return v
+}
 
 // BindParam records that prm stands for arg.
 func BindParam(prm *ssa.Parameter, arg ssa.Value) { paramBindings[prm] = arg }
